@@ -76,6 +76,7 @@ pub enum OpK {
     Await,
     AwaitRef,
     Join,
+    JoinPark,
     QueryStopped,
     QueryRunning,
     Yield,
